@@ -129,7 +129,9 @@ Section Proofs.
     repeat constructor.
   Qed.
 
-  (* ------------------------------------------------------------ from_matrix44 then as_affine *)
+  (* ------------------------------------------------------------ from_matrix44 then as_affine
+     `prior` = value of self._direct before the call: arbitrary (every from_matrix44 of the source starts
+     with `self._direct = True`, event FxSetDirect true of the generated programs) *)
   Ltac destruct_rnegs :=
     repeat match goal with
            | |- context [rneg ?x] => let E := fresh "Eneg" in destruct (rneg x) eqn:E
@@ -142,8 +144,7 @@ Section Proofs.
 
   Lemma reconstructs_lemma k prior o M :
     In k class_names -> WfAff 3 3 M -> fx_contract k o M ->
-    exists x, from_matrix44 k prior o M = Some x /\ x_class x = k /\
-              (prior = true -> as_affine x = M).
+    exists x, from_matrix44 k prior o M = Some x /\ x_class x = k /\ as_affine x = M.
   Proof.
     intros Hk HM HC.
     destruct (wf_aff33_inv M HM) as (a & b & c & d & e & f & g & h & i & t0 & t1 & t2 & ->).
@@ -156,7 +157,7 @@ Section Proofs.
               destruct (wf33_inv V HV) as (v1 & v2 & v3 & v4 & v5 & v6 & v7 & v8 & v9 & ->);
               destruct (len3_inv s Hs) as (s1 & s2 & s3 & ->);
               cbn in HE; injection HE; intros; subst).
-    all: eexists; split; [reflexivity|]; split; [reflexivity|]; intros ->.
+    all: eexists; split; [reflexivity|]; split; [reflexivity|].
     all: cbn; destruct_rnegs; cbn; list_eq.
     all: try ring.
     all: repeat match goal with
@@ -203,7 +204,6 @@ Section Proofs.
     assert (WM : WfAff 3 3 (compose_matrix a b)).
     { rewrite compose_matrix_eq. now apply (mm_wf_aff R r0 r1 radd rmul rsub ropp Rth 3 3 3). }
     destruct (reconstructs_lemma k true o _ Hk WM (HC k Ek)) as (c & Ec & Hc & Hrec).
-    specialize (Hrec eq_refl).
     exists c. unfold Model.compose. rewrite Ek. split; [exact Ec|].
     split; [split; [now rewrite Hc|now rewrite Hrec]|].
     split; [now rewrite Hc|]. split; [now rewrite Hrec, compose_matrix_eq|].
@@ -221,7 +221,6 @@ Section Proofs.
   Proof.
     intros [Ha Wa] WM HL HR HC.
     destruct (reconstructs_lemma _ true o _ Ha WM HC) as (c & Ec & Hc & Hrec).
-    specialize (Hrec eq_refl).
     exists c. split; [exact Ec|]. split; [exact Hc|]. split; [exact Hrec|].
     intros p Hp. unfold Model.apply. rewrite Hrec. split.
     - rewrite <- (happly_mm R r0 r1 radd rmul rsub ropp Rth 3 3 3) by assumption.
